@@ -497,7 +497,9 @@ def check_support_queries(cfg, ob):
     return None
 
 
-def coq_case(cfg, node, tables_last=True):
+def coq_case(cfg, node, tables_last=True, max_steps=None):
+    if max_steps is not None and len(node['ops']) > max_steps:
+        node = {'ops': node['ops'][:max_steps], 'obs': node['obs'][:max_steps]}
     axes = '[' + ';'.join('mk_axis %d %s' % (ax['p'], cmi(ax['mults'])) for ax in cfg['axes']) + ']'
     disp = 'None' if cfg['disparity'] is None else '(Some %d)' % cfg['disparity']
     steps, exps = [], []
@@ -609,12 +611,12 @@ def gen_cases(ctx):
     for d in (2, 3):
         for p in (1, 2):
             for _ in range(6 if thorough else (3 if d == 2 else 1)):
-                chain_cfgs.append(([uniform_axis(p, rng.choice([3, 4]))], d))
+                chain_cfgs.append(([uniform_axis(p, rng.choice([3, 4, 5]))], d))
     for _ in range(8 if thorough else 2):
         chain_cfgs.append(([uniform_axis(rng.randint(1, 2), rng.choice([2, 3])), uniform_axis(rng.randint(1, 2), 2)], 2))
     for axes, d in chain_cfgs:
         cases.append({'cfg': cfg(axes, d, rng.random() < 0.5), 'mode': 'chain', 'seed': rng.randrange(1 << 30),
-                      'nops': 2 * d + 2 if len(axes) == 1 else 2 * d + 1, 'cap': 500, 'what': 'chain-%dd-d%d' % (len(axes), d)})
+                      'nops': 2 * d + 2, 'cap': 600, 'what': 'chain-%dd-d%d' % (len(axes), d)})
     # --- seeded random histories
     nrand = 1000 if thorough else 70
     for _ in range(nrand):
@@ -672,6 +674,8 @@ def run(ctx):
         'model of HSpace.refine is the per-level closed form of the two loops of the source (order of the set updates kept); '
         'its agreement with the sequential code is what the exact correspondence run checks',
         'repaired behaviour modelled for marks given as list/tuple with finite disparity (fixes/C04-marks-container.patch)',
+        'chain histories: the model is compared on the first 6 calls only (levels >= 7 are slow with unary naturals); the property oracle '
+        'is evaluated on the implementation after every call',
         'tie: per call exact comparison (inside Coq, vm_compute) of status, numlevels, the four set families per level, returned marks, '
         'flat orderings, incidence matrix, is_subspace_of/==, meshsupp/suppfunc tables of every level, '
         'cell_support_extension/function_support_extension/support/supported_in on seeded arguments',
@@ -693,7 +697,11 @@ def run(ctx):
                 c['max_nodes'] = min(c['max_nodes'], 40)
         ctx.assumptions.append('VERIF_C04_LIMIT=%d: reduced case set (development run)' % lim)
     log('[C04] %d driver cases (%s)' % (len(cases), ctx.tier))
+    import time as _t
+    _t0 = _t.time()
     outs = run_driver(ctx, cases)
+    log('[C04] driver stage %.1fs' % (_t.time() - _t0))
+    _t0 = _t.time()
     dist = {}
     nodes = []           # (case, node)
     nonexh = []
@@ -748,12 +756,14 @@ def run(ctx):
     ctx.cov['float_bound'] = MAT_TOL
     ctx.cov['largest_float_deviation'] = maxdev
 
+    log('[C04] oracle stage %.1fs' % (_t.time() - _t0))
+    _t0 = _t.time()
     # ---- stage 2: correspondence with the model, exact, inside Coq
     files, chunks = [], []
     cur, cur_size = [], 0
     for ni, (c, n) in enumerate(nodes):
-        txt = coq_case(c['cfg'], n, tables_last=(c['mode'] != 'tree' or ni % 8 == 0))
-        if cur and (cur_size + len(txt) > 150_000 or len(cur) >= 300):
+        txt = coq_case(c['cfg'], n, tables_last=(c['mode'] != 'tree' or ni % 8 == 0), max_steps=(6 if c['mode'] == 'chain' else None))
+        if cur and (cur_size + len(txt) > 150_000 or len(cur) >= 300 or (c['mode'] == 'chain' and sum(1 for x in cur if x[0]['mode'] == 'chain') >= 3)):
             chunks.append(cur)
             cur, cur_size = [], 0
         cur.append((c, n, txt))
@@ -787,6 +797,7 @@ def run(ctx):
         ctx.discharged += 1
         for b in badidx:
             disagreements.append(ch[b])
+    log('[C04] coq stage %.1fs (%d files)' % (_t.time() - _t0, len(files)))
     ctx.cov['disagreements_checked'] = len(disagreements)
     seen = set()
     for (c, n, _txt) in disagreements:
